@@ -360,6 +360,11 @@ class MCNP_Problem:
                         matching_map[match] = surface
         for cell in self.cells:
             cell.remove_duplicate_surfaces(matching_map)
+        # a surviving surface that is periodic with a removed surface follows it to the survivor
+        for surface in self.surfaces:
+            partner = surface.periodic_surface
+            if partner is not None and partner in matching_map:
+                surface._periodic_surface = matching_map[partner]
         for surface in to_delete:
             self._surfaces.remove(surface)
 
